@@ -8,10 +8,14 @@ CONFIG = {
         "SysV shared memory is an array of int32 in the model; the harness sets Shm.Shm.Money directly at each reset",
         "go/types Sizes(gc, amd64) for the UserecRaw layout; cross-checked against unsafe.Offsetof/Sizeof of the compiled code by the `layout` op",
     ],
-    "modelled": ["cache.SetUMoney", "cache.DeUMoney", "cache.MoneyOf", "cache.passwdUpdateMoney", "ptttype.UID.ToUIDInStore"],
+    "modelled": ["cache.SetUMoney", "cache.DeUMoney", "cache.MoneyOf", "cache.passwdUpdateMoney", "ptttype.UID.ToUIDInStore",
+                 "ptt.passwdSyncQuery (through ptt.GetUser)", "ptt.passwdSyncUpdate (through ptt.SetUserPerm)",
+                 "cmbbs.PasswdQuery", "cmbbs.PasswdUpdate", "encoding/binary bool normalisation of UserecRaw"],
     "assumptions": [
         "the theorems are stated for a .PASSWDS of exactly MAX_USERS records and an SHM money array of MAX_USERS entries (other files are compared with the model, not judged)",
         "no-overflow hypothesis of the property: amounts are int32, a debit is not -2^31 (its negation does not exist in int32: DeUMoney then stores balance-2^31) and the stored sum is an int32",
+        "ptt.GetUser reaches passwdSyncQuery through the SHM user hash (cache.SearchUserRaw): the harness loads the hash once with one name per slot and checks every lookup at start-up; the hash itself is C04's subject",
+        "a caller's UserecRaw is modelled by its 512-byte serialisation",
         "single writer: concurrent SetUMoney/DeUMoney on one slot are outside this property",
         "MoneyOf on an invalid slot panics (index out of range); it writes nothing and is recorded, not judged",
     ],
